@@ -17,4 +17,6 @@ INVARIANT ZonesNested
 INVARIANT RejectAtomic
 INVARIANT AcceptStores
 INVARIANT ReaderTotal
+INVARIANT StretchInvariant
+INVARIANT RepeatInvariant
 CHECK_DEADLOCK FALSE
